@@ -21,6 +21,7 @@ import (
 	"sync"
 	"time"
 	"unicode/utf8"
+	"verif/harness/internal/corners"
 
 	"github.com/200sc/bebop"
 	"verif/harness/internal/filedump"
@@ -449,51 +450,6 @@ func checkText(stream string, text []byte, expected string, cmpModel bool, rng *
 	}
 }
 
-// cornerTexts: small schemas around constructs that are rare in the fixtures.
-func cornerTexts() []string {
-	long := func(n int) string { return strings.Repeat("long comment text ", n/18+1)[:n] }
-	out := []string{
-		// attributes on union branches
-		"union U {\n\t1 -> struct A {\n\t\tint32 x;\n\t}\n\t[deprecated(\"use A\")]\n\t2 -> struct B {\n\t}\n\t[deprecated(\"gone\")]\n\t3 -> message C {\n\t\t1 -> string s;\n\t}\n}\n",
-		"// doc of U\nunion U {\n\t// doc of A\n\t[deprecated(\"a\")]\n\t1 -> struct A { int32 x; }\n\t/* block doc of B */\n\t[deprecated(\"b\")]\n\t2 -> message B { 1 -> int32 y; }\n}\n",
-		// multi-line block comments in every kind of body, and in the bodies of union members
-		"enum E {\n\t/* first line\n\t   second line */\n\tA = 1;\n}\nstruct S {\n\t/* first line\n\t   second line */\n\tint32 x;\n}\nmessage M {\n\t/* first line\n\t   second line */\n\t1 -> int32 x;\n}\n",
-		"union U {\n\t1 -> struct A {\n\t\t/* first line\n\t\t   second line */\n\t\tint32 x;\n\t}\n\t2 -> message B {\n\t\t/* first line\n\t\t   second line\n\t\t   third line */\n\t\t1 -> int32 y;\n\t}\n}\n",
-		"/* top\n   level\n   block */\nstruct S {\n\tint32 x; /* after\n field */\n\tint32 y;\n}\n",
-		// [flags] expressions with unbalanced parentheses, and the attribute on a line of its own under a doc comment
-		"[flags]\nenum E {\n\tA = (1;\n}\n",
-		"[flags]\nenum E {\n\tA = 1;\n\tB = ((A | 2);\n}\n",
-		"[flags]\nenum E {\n\tA = 1);\n}\n",
-		"[flags]\nenum E {\n\tA = (1 << (2);\n\tB = ();\n}\n",
-		"// what a caller may do\n[flags]\nenum Perm {\n\tRead = 1;\n\tWrite = 2;\n}\n",
-		"/* what a caller may do */\n[flags]\nenum Perm : uint8 {\n\tRead = 1;\n}\n// next\n[opcode(0x1)]\nstruct S {\n}\n",
-		// signed shifts and wide values in [flags]
-		"[flags]\nenum Mask : int64 {\n\tLow = -16;\n\tShifted = Low >> 2;\n\tLiteral = -64 >> 1;\n}\n[flags]\nenum M32 : int32 {\n\tLow = -16;\n\tShifted = Low >> 2;\n}\n",
-	}
-	out = append(out,
-		// octal literals (a leading zero changes the base)
-		"enum Mode : uint16 {\n\tDefault = 0755;\n\tSticky = 01000;\n\tSeven = 07;\n\tZero = 0;\n}\n",
-		"[flags]\nenum Perm : uint16 {\n\tSticky = 01000;\n\tBoth = Sticky | 02000;\n\tHex = 0x10;\n}\nmessage M {\n\t010 -> int32 ten;\n\t7 -> int32 seven;\n}\n",
-		// empty lines after comments and fields inside bodies
-		"struct S {\n\tint32 a;\n\t// second group\n\n\n\tint32 b;\n\n\n\n\tint32 c; // trailing\n\n\n\tint32 d;\n}\n",
-		"message M {\n\t1 -> int32 a;\n\n\t// doc\n\n\n\t2 -> int32 b;\n}\nunion U {\n\t1 -> struct A {\n\t\t// c\n\n\n\t\tint32 x;\n\t}\n}\n",
-		"const int32 limit = 10;\n// A is documented\nstruct A {\n\tint32 x;\n}\nconst int32 other = 1; // same line\n\n// doc of B\n\nstruct B {\n}\n",
-		// block comments after the last token of a line, as the very last thing of the input
-		"const int32 x = 1; /* trailing */\n",
-		"struct S {\n\tint16 f; /* don't */ /* do */ /* this */\n}\nconst bool b = true; /* one */ /* two */",
-		"message M {\n\t1 -> int32 a; /* after a */\n}\nunion U {\n\t1 -> struct A {\n\t} /* after member */\n} /* after union */\n",
-		// identifiers beyond ASCII
-		"enum Gr\u00f6\u00dfe {\n\tKlein = 1;\n}\nstruct Caf\u00e9 {\n\tint32 se\u00f1al;\n\tGr\u00f6\u00dfe g;\n}\nmessage \u03a9mega {\n\t1 -> Caf\u00e9 c;\n}\n",
-	)
-	for _, n := range []int{4000, 4090, 4097, 4200, 9000} {
-		out = append(out,
-			"// "+long(n)+"\nstruct S {\n\tint32 x;\n}\nstruct T {\n\tS s;\n}\n",
-			"struct S {\n\tint32 x; // "+long(n)+"\n\t// "+long(n/2)+"\n\tint32 y;\n}\nmessage M {\n\t1 -> int32 z;\n}\n",
-			"/* "+long(n)+" */\nenum E {\n\tA = 1;\n}\n")
-	}
-	return out
-}
-
 // bigInput: a schema of more than 1 MiB made of one-line structs. ReadFile must read all of them (and a definition
 // appended at the very end), and a reader that fails far into the input must be reported.
 func bigInput(rng *rand.Rand) {
@@ -902,7 +858,7 @@ func main() {
 	}
 	// 4b. hand-written corners: constructs that the fixtures and the generator rarely combine, each also with CRLF
 	// line ends; very long comment lines (beyond bufio's 4096-byte buffer)
-	for _, c := range cornerTexts() {
+	for _, c := range corners.Texts() {
 		checkText("corners", []byte(c), "", isASCII([]byte(c)), rng)
 		if strings.Contains(c, "\n") && !strings.Contains(c, "\r") {
 			crlf := strings.ReplaceAll(c, "\n", "\r\n")
